@@ -127,7 +127,12 @@ func (g *G) nodeOfKind(k spec.Kind, depth int) *spec.Node {
 		}
 		// extra destination fields the schema does not name
 		n.ExtraFields = []spec.ExtraField{{GoName: "XUntouchedS", Type: reflect.TypeOf("")}, {GoName: "XUntouchedI", Type: reflect.TypeOf(0)}}
-		if g.O.StructTests && g.pct(25) {
+		if g.O.StructTests && g.pct(6) {
+			n.ViaMerge = true
+			for i := 0; i < g.R.Range(1, 4); i++ {
+				n.Tests = append(n.Tests, g.fixedTest(fmt.Sprintf("mt%d", i)))
+			}
+		} else if g.O.StructTests && g.pct(25) {
 			nt := g.R.Range(1, 2)
 			for i := 0; i < nt; i++ {
 				n.Tests = append(n.Tests, g.fixedTest(fmt.Sprintf("st%d", i)))
